@@ -10,9 +10,45 @@ static size_t n_freed;
 static void  *freed[1 << 16];
 void  nni_msg_free(nni_msg *m) { if (n_freed < (1 << 16)) freed[n_freed] = m; n_freed++; }
 size_t nni_msg_len(const nni_msg *m) { (void) m; return 0; }
-void *nni_alloc(size_t sz) { return (sz > 0 ? malloc(sz) : NULL); }
-void *nni_zalloc(size_t sz) { return (sz > 0 ? calloc(1, sz) : NULL); }
-void  nni_free(void *p, size_t sz) { (void) sz; free(p); }
+/* allocator with failure injection (k-th request refused) and sized-free bookkeeping */
+static int    vp_alloc_calls, vp_alloc_fail_at, vp_nlive;
+static struct { void *p; size_t sz; } vp_blk[64];
+static void *
+vp_alloc(size_t sz, int zero)
+{
+	void *p;
+	if (sz == 0)
+		return (NULL);
+	vp_alloc_calls++;
+	if (vp_alloc_fail_at != 0 && vp_alloc_calls == vp_alloc_fail_at)
+		return (NULL);
+	p = zero ? calloc(1, sz) : malloc(sz);
+	for (int i = 0; i < 64 && p != NULL; i++)
+		if (vp_blk[i].p == NULL) {
+			vp_blk[i].p  = p;
+			vp_blk[i].sz = sz;
+			vp_nlive++;
+			break;
+		}
+	return (p);
+}
+void *nni_alloc(size_t sz) { return (vp_alloc(sz, 0)); }
+void *nni_zalloc(size_t sz) { return (vp_alloc(sz, 1)); }
+void
+nni_free(void *p, size_t sz)
+{
+	for (int i = 0; i < 64 && p != NULL; i++)
+		if (vp_blk[i].p == p) {
+			if (vp_blk[i].sz != sz) {
+				printf("nni_free(%p, %zu): block was allocated with %zu bytes\n", p, sz, vp_blk[i].sz);
+				VP_EXPECT(!"nni_free size == allocation size");
+			}
+			vp_blk[i].p = NULL;
+			vp_nlive--;
+			break;
+		}
+	free(p);
+}
 void  nni_mtx_init(nni_mtx *m) { (void) m; }
 void  nni_mtx_fini(nni_mtx *m) { (void) m; }
 void  nni_mtx_lock(nni_mtx *m) { (void) m; }
@@ -34,6 +70,7 @@ void  nni_aio_finish(nni_aio *a, nng_err r, size_t c) { (void) a; (void) r; (voi
 void  nni_aio_finish_error(nni_aio *a, nng_err r) { (void) a; (void) r; }
 void  nni_aio_finish_msg(nni_aio *a, nni_msg *m) { (void) a; (void) m; }
 bool  nni_aio_start(nni_aio *a, nni_aio_cancel_fn f, void *arg) { (void) a; (void) f; (void) arg; return true; }
+void  nni_aio_reset(nni_aio *a) { (void) a; }
 
 #define MSG(i) ((nni_msg *) (uintptr_t) (0x1000 + 16 * (i)))
 #define IDX(get, k, alloc) (((get) + (k)) % (alloc))
@@ -47,16 +84,55 @@ main(int argc, char **argv)
 	}
 	vp_load(argv[1]);
 	const char *fn = argv[2];
+	if (strcmp(fn, "nni_msgq_init") == 0) {
+		unsigned c = (unsigned) vp_u64("vp_arg_cap", 0);
+		if (!vp_has("vp_arg_cap") || c > (1u << 20)) {
+			printf("REPLAY-RESULT: skipped (%s)\n", vp_has("vp_arg_cap") ? "capacity too large to build natively" : "trace has no entry snapshot");
+			return 3;
+		}
+		for (int k = 0; k <= 2; k++) { /* every allocation succeeds / the 1st / the 2nd is refused */
+			nni_msgq *q = (nni_msgq *) (uintptr_t) 0x5a5a;
+			vp_alloc_calls = 0, vp_alloc_fail_at = k;
+			int rv = nni_msgq_init(&q, c);
+			vp_alloc_fail_at = 0;
+			printf("nni_msgq_init(cap=%u)%s -> %d\n", c, k == 0 ? "" : k == 1 ? " [1st allocation refused]" : " [2nd allocation refused]", rv);
+			VP_EXPECT(rv == 0 || rv == NNG_ENOMEM);
+			VP_EXPECT((rv != 0) == (k != 0));
+			if (rv != 0) {
+				VP_EXPECT(q == (nni_msgq *) (uintptr_t) 0x5a5a && vp_nlive == 0);
+			} else {
+				VP_EXPECT(vp_nlive == 2);
+				VP_EXPECT(q->mq_alloc == c + 2 && q->mq_cap == c && q->mq_len == 0 && !q->mq_closed && q->mq_get == 0 && q->mq_put == 0);
+				/* what a user sees next: exactly cap messages are accepted, then released by fini in order */
+				unsigned n = 0;
+				while (n <= c + 2 && nni_msgq_tryput(q, MSG(n)) == 0)
+					n++;
+				VP_EXPECT(n == c);
+				n_freed = 0;
+				nni_msgq_fini(q);
+				VP_EXPECT(n_freed == n && vp_nlive == 0);
+				for (unsigned i = 0; i < n_freed && i < n; i++)
+					VP_EXPECT(freed[i] == MSG(i));
+			}
+		}
+		VP_DONE();
+	}
+	if (strcmp(fn, "nni_msgq_fini") == 0 && vp_has("vp_arg_mq") && vp_u64("vp_arg_mq", 1) == 0) {
+		nni_msgq_fini(NULL);
+		printf("nni_msgq_fini(NULL)\n");
+		VP_EXPECT(n_freed == 0);
+		VP_DONE();
+	}
 	unsigned cap = (unsigned) vp_u64("vp_in_cap", 0), alloc = (unsigned) vp_u64("vp_in_alloc", 2),
 	         len = (unsigned) vp_u64("vp_in_len", 0), get = (unsigned) vp_u64("vp_in_get", 0);
 	if (alloc > (1u << 20) + 2 || !(alloc >= cap + 2 && get < alloc && len <= cap + 1)) {
 		printf("REPLAY-RESULT: skipped (counterexample pre-state is not a well-formed ring or too large)\n");
 		return 3;
 	}
-	struct nni_msgq *mq = calloc(1, sizeof(*mq));
+	struct nni_msgq *mq = nni_zalloc(sizeof(*mq));
 	mq->mq_cap = cap; mq->mq_alloc = alloc; mq->mq_len = len; mq->mq_get = get; mq->mq_put = IDX(get, len, alloc);
 	mq->mq_closed = vp_u64("vp_in_closed", 0) != 0;
-	mq->mq_msgs = calloc(alloc, sizeof(nni_msg *));
+	mq->mq_msgs = nni_zalloc(alloc * sizeof(nni_msg *));
 	for (unsigned i = 0; i < len; i++)
 		mq->mq_msgs[IDX(get, i, alloc)] = MSG(i);
 	if (strcmp(fn, "nni_msgq_resize") == 0) {
@@ -83,11 +159,21 @@ main(int argc, char **argv)
 		}
 		for (unsigned i = 0; i < len; i++)
 			VP_EXPECT(mq->mq_msgs[IDX(mq->mq_get, i, mq->mq_alloc)] == MSG(i));
+	} else if (strcmp(fn, "nni_msgq_fini") == 0) {
+		nni_msgq_fini(mq);
+		printf("nni_msgq_fini on {cap=%u alloc=%u len=%u get=%u}: %zu messages released, %d blocks still allocated\n", cap, alloc, len, get,
+		    n_freed, vp_nlive);
+		/* every queued message released exactly once, oldest first; array and structure released with their sizes */
+		VP_EXPECT(n_freed == len);
+		for (unsigned i = 0; i < n_freed && i < len; i++)
+			VP_EXPECT(freed[i] == MSG(i));
+		VP_EXPECT(vp_nlive == 0);
+		VP_DONE();
 	} else {
 		printf("REPLAY-RESULT: skipped (no native driver for %s)\n", fn);
 		return 3;
 	}
-	free(mq->mq_msgs);
-	free(mq);
+	nni_free(mq->mq_msgs, mq->mq_alloc * sizeof(nni_msg *));
+	nni_free(mq, sizeof(*mq));
 	VP_DONE();
 }
